@@ -356,25 +356,55 @@ def rule_rbf_extract(chk, prog, tree):
     if target is None:
         raise core.AnalysisError("%s: no double-valued helper receives the exps argument" % cfn)
     helper, hid, hname = target
+    # structural match: an accumulation  acc += exps[j] * D * D  where D is one and the same difference of two
+    # array elements (a scalar local initialised/assigned to it, or the difference written out twice), whatever
+    # the locals are called and however they are qualified
     ok_quad = False
-    for n in cfacts.walk(tu.body(helper)):
+    hbody = tu.body(helper)
+    diff_vars = set()
+    for n in cfacts.walk(hbody):
+        init = None
+        if n.get("kind") == "VarDecl" and "*" not in n.get("type", {}).get("qualType", "") and cfacts.kids(n):
+            init, vid = cfacts.strip(cfacts.kids(n)[0]), n["id"]
+        elif n.get("kind") == "BinaryOperator" and n.get("opcode") == "=":
+            l_, r_ = cfacts.kids(n)
+            l_ = cfacts.strip(l_)
+            if l_.get("kind") == "DeclRefExpr":
+                init, vid = cfacts.strip(r_), l_["referencedDecl"]["id"]
+        if init is not None and init.get("kind") == "BinaryOperator" and init.get("opcode") == "-" \
+                and all(cfacts.strip(k_).get("kind") == "ArraySubscriptExpr" for k_ in cfacts.kids(init)):
+            diff_vars.add(vid)
+
+    def factors(e):
+        e = cfacts.strip(e)
+        if e.get("kind") == "BinaryOperator" and e.get("opcode") == "*":
+            l_, r_ = cfacts.kids(e)
+            return factors(l_) + factors(r_)
+        return [e]
+    for n in cfacts.walk(hbody):
         if n.get("kind") == "CompoundAssignOperator" and n.get("opcode") == "+=":
-            rhs = cfacts.kids(n)[1]
-            refs = [x["referencedDecl"] for x in cfacts.walk(rhs)
-                    if x.get("kind") == "DeclRefExpr" and x.get("referencedDecl")]
-            n_exps = sum(1 for r in refs if r["id"] == hid)
-            dbl = {}
-            for r in refs:
-                if r["kind"] == "VarDecl" and r["type"]["qualType"] == "double":
-                    dbl[r["id"]] = dbl.get(r["id"], 0) + 1
-            only_mul = all(x.get("opcode") == "*" for x in cfacts.walk(rhs) if x.get("kind") == "BinaryOperator")
-            if n_exps == 1 and only_mul and sorted(dbl.values()) == [2]:
+            fs = factors(cfacts.kids(n)[1])
+            n_exps, dkeys, other = 0, [], 0
+            for f_ in fs:
+                if f_.get("kind") == "ArraySubscriptExpr" and er._decl_refs(cfacts.kids(f_)[0]) == [hid]:
+                    n_exps += 1
+                elif f_.get("kind") == "DeclRefExpr" and f_["referencedDecl"]["id"] in diff_vars:
+                    dkeys.append(("v", f_["referencedDecl"]["id"]))
+                elif f_.get("kind") == "BinaryOperator" and f_.get("opcode") == "-" \
+                        and all(cfacts.strip(k_).get("kind") == "ArraySubscriptExpr" for k_ in cfacts.kids(f_)):
+                    dkeys.append(("e", " ".join(tu.text_of(f_).split())))
+                elif f_.get("kind") in ("IntegerLiteral", "FloatingLiteral"):
+                    pass
+                else:
+                    other += 1
+            if n_exps == 1 and other == 0 and len(dkeys) == 2 and dkeys[0] == dkeys[1]:
                 ok_quad = True
     inst = "%s -> %s: exponent accumulates %s[j]*d*d" % (cfn, helper, hname)
     if ok_quad:
         chk.ok("rbf-extract", inst)
     else:
-        raise core.AnalysisError("%s: the quadratic form %s[j]*tmp*tmp was not recognised" % (helper, hname))
+        raise core.AnalysisError("%s: no accumulation of the form acc += %s[j] * d * d (d one difference of two array "
+                                 "elements) was recognised" % (helper, hname))
 
 
 def mapping_function(prog, name):
